@@ -197,6 +197,10 @@ class KeyValuePairNode(ContainerNode):
     def to_obj(self):
         return self.key, self.value
 
+    def copy_from(self: C, children: Iterable[TreeNode]) -> C:
+        key, value = children
+        return self.__class__(key, value, allow_key_edits=self.allow_key_edits)
+
     def print_parent_context(self, printer: Printer, for_child: TreeNode):
         if for_child.parent is not self:
             # this is not one of our children!
@@ -636,7 +640,11 @@ class FixedKeyDictNode(MappingNode, SequenceNode[Dict[LeafNode, KeyValuePairNode
             return Replace(self, node)
 
     def items(self) -> Iterator[Tuple[LeafNode, TreeNode]]:
-        yield from iter(self._children.items())
+        for kvp in self._children.values():
+            yield kvp.key, kvp.value
+
+    def copy_from(self: C, children: Iterable[KeyValuePairNode]) -> C:
+        return self.__class__({kvp.key: kvp for kvp in children})
 
     def editable_dict(self) -> Dict[str, Any]:
         ret = dict(self.__dict__)
